@@ -103,19 +103,21 @@ class ListFacts:
 
 def run(prog: Program, rep: Report):
     lf = ListFacts(prog)
-    r1_size(prog, rep, lf)
-    r2_identity(prog, rep, lf)
-    r3_guards(prog, rep, lf)
+    rep.attempt(lambda: r1_size(prog, rep, lf))
+    rep.attempt(lambda: r2_identity(prog, rep, lf))
+    rep.attempt(lambda: r3_guards(prog, rep, lf))
     from . import c08_shape
-    c08_shape.run(prog, rep, lf)
-    r6_node_provenance(prog, rep, lf)
+    rep.attempt(lambda: c08_shape.run(prog, rep, lf))
+    rep.attempt(lambda: r6_node_provenance(prog, rep, lf))
     from .memo import public_entry_points, rule_derived_state
     from .ownership import rule_no_class_state
-    rule_derived_state(prog, rep, "C08.R7", lf.lst, set(lf.ends) | {lf.size}, public_entry_points(prog, lf.lst),
-                       what="a cached middle node, a cached length or an index of nodes must not survive an insertion, removal or move")
-    rule_no_class_state(prog, rep, "C08.R8", [lf.lst])
-    oneshot_rule(prog, rep, "C08.R5", [prog.method(lf.lst, m) for m in ("__init__", "extend", "pre_extend")],
-                 "a second traversal of a generator argument would link nothing while the size was already counted (or vice versa)")
+    rep.attempt(lambda: rule_derived_state(prog, rep, "C08.R7", lf.lst, set(lf.ends) | {lf.size}, public_entry_points(prog, lf.lst),
+                       what="a cached middle node, a cached length or an index of nodes must not survive an insertion, removal or move"))
+    rep.attempt(lambda: rule_no_class_state(prog, rep, "C08.R8", [lf.lst]))
+    from .mixins import rule_fresh_iterator
+    rep.attempt(lambda: rule_fresh_iterator(prog, rep, "C08.R9", [lf.lst]))
+    rep.attempt(lambda: oneshot_rule(prog, rep, "C08.R5", [prog.method(lf.lst, m) for m in ("__init__", "extend", "pre_extend")],
+                 "a second traversal of a generator argument would link nothing while the size was already counted (or vice versa)"))
 
 
 # ---------------------------------------------------------------------------------------------- R1
